@@ -45,6 +45,10 @@ func NewSparseConstIntVector(indices []int, values []int, n int) SparseConstIntV
   if len(indices) != len(values) {
     panic("invalid number of indices")
   }
+  // work on copies: the caller's slices are neither reordered nor shared
+  // with the vector (the Unsafe constructor above is the one that shares)
+  indices = append([]int{}, indices...)
+  values = append([]int{}, values...)
   sort.Sort(sortIntConstInt{indices, values})
   r := nilSparseConstIntVector(n)
   r.indices = indices[0:0]
